@@ -5,7 +5,7 @@ proof:          coq/Properties/C05.v (rearrange: permutation, stable sort by (cr
 correspondence: extracted Impl.Layout.rearrange / reconfigure (group 'layout') vs penman.layout.rearrange /
                 reconfigure on the same trees/graphs and keys; random_order is driven by the recorded
                 stream of random.random() values, so the model must reproduce the exact tree
-oracle:         graph content and top before/after (rearrange, reconfigure, encode(g, top=v)); per-node
+oracle:         reconfigure(g) == reconfigure(g with Push/POP removed by hand); graph content and top before/after (rearrange, reconfigure, encode(g, top=v)); per-node
                 branch multiset with "/" first; order = my own stable insertion sort on independently
                 recomputed (criterion1, key(role)) pairs; :op2 before :op10; inverted roles last
 """
@@ -17,7 +17,7 @@ from harness import common, models, gen, c02
 from harness.common import timed, Timeout
 
 THEOREMS = ['C05_rearrange_perm', 'C05_rearranged_meaning', 'C05_rearrange_content', 'C05_rearrange_content_pure',
-            'C05_rearrange_sorted_stable', 'C05_rearrange_is_rn', 'C05_stable_sort_unique',
+            'C05_rearrange_sorted_stable', 'C05_rearrange_all_sorted', 'C05_all_sorted_meaning', 'C05_rearrange_is_rn', 'C05_stable_sort_unique',
             'C05_key_orders_total_preorders', 'C05_alnum_numeric', 'C05_alnum_op2_before_op10',
             'C05_canonical_inverted_last', 'C05_reconfigure_strips_markers', 'C05_reconfigure_is_configure',
             'C05_nonvacuous']
@@ -250,6 +250,10 @@ def eval_graph_case(case):
     if not roles_invertible(g, m):
         res['skipped'] = 'role-inversion-not-involutive'
         return res
+    # the same graph with Push/POP removed by hand: reconfigure must not see the difference
+    bare = copy.deepcopy(g)
+    for t_ in list(bare.epidata):
+        bare.epidata[t_] = [e for e in bare.epidata[t_] if not isinstance(e, layout.LayoutMarker)]
     plans = [(k, None) for k in KEYS]
     for v in variables:
         plans.append(('none', v))
@@ -275,6 +279,15 @@ def eval_graph_case(case):
         run['tree'] = t.node
         run['meta'] = dict(t.metadata)
         run['log'] = log
+        try:
+            if kname.startswith('random'):
+                random.seed(int(kname[6:]))
+            t_bare = timed(layout.reconfigure, bare, top, m, impl_key(kname, m, []), seconds=20)
+            if t_bare.node != t.node:
+                run['problems'].append(('markers', 'reconfigure depends on the Push/POP markers it should discard: %r vs %r without markers'
+                                        % (t.node, t_bare.node)))
+        except Exception as e:   # noqa
+            run['problems'].append(('markers', 'reconfigure of the marker-free copy raised ' + type(e).__name__))
         want_top = top if top is not None else g.top
         if t.node[0] != want_top:
             run['problems'].append(('top', 'root is %r, expected %r' % (t.node[0], want_top)))
